@@ -173,6 +173,38 @@ func ruleMnemonicWordCount(c *report.Ctx) {
 		v := an.CallOf(s).Args[0]
 		ms, ok := v.(*ssa.MakeSlice)
 		if !ok {
+			// the fill loop may be a helper of the package: then every value the helper returns must be such a slice
+			var hc *ssa.Call
+			idx := 0
+			switch x := v.(type) {
+			case *ssa.Call:
+				hc = x
+			case *ssa.Extract:
+				hc, _ = x.Tuple.(*ssa.Call)
+				idx = x.Index
+			}
+			if hc != nil {
+				if g := hc.Call.StaticCallee(); g != nil && g.Blocks != nil && an.FuncPkg(g) == an.FuncPkg(f) {
+					all, any := true, false
+					for _, b := range g.Blocks {
+						if r, isRet := b.Instrs[len(b.Instrs)-1].(*ssa.Return); isRet && idx < len(r.Results) {
+							any = true
+							m2, isMS := an.RetOperand(r, idx).(*ssa.MakeSlice)
+							if !isMS {
+								all = false
+								continue
+							}
+							if k, isK := constInt(m2.Len); isK && k == 0 {
+								all = false
+							}
+						}
+					}
+					if any && all {
+						c.OK(key, "helper "+sk(g)+" returns make([]string, n) filled in place", posOf(c, s))
+						continue
+					}
+				}
+			}
 			// make with constant length lowers to new [N]string + slice: not the case here (length is computed)
 			c.Fail(key, "the joined word list is "+p.Desc(v)+", not a slice allocated with the sentence length: the number of words follows the magnitude of the entropy (entropy with leading zero bits yields a shorter, non-BIP-39 sentence that cannot be decoded)", posOf(c, s))
 			continue
